@@ -381,6 +381,8 @@ def oracle(ctx, hints, broken):
         n += 1
         if v24:
             viol.append(v24)
+        vr, nr_ = M.check_remap_next_to_plain(True)          # a model with remapped blocks next to plain names: the returned nonlinear general-equilibrium paths vs the same equations written with the new names
+        viol, n = viol + vr, n + nr_
         import io, contextlib
         with contextlib.redirect_stdout(io.StringIO()):
             ve, ne = M.check_examples(['rbc', 'krusell_smith', 'hank'] if ctx['tier'] == 'thorough' or broken else ['rbc'], 'nl')
@@ -410,5 +412,8 @@ def oracle(ctx, hints, broken):
 
 
 def replay(rp):
+    if (rp.get('input') or {}).get('kind') == 'remap-next-to-plain':
+        v = [x for x in M.check_remap_next_to_plain(True)[0] if x['input'].get('call') == rp['input'].get('call')]
+        return v[0] if v else None
     v = check(C.Rng(0), (rp.get('input') or {}).get('calib_override'))[0]
     return v[0] if v else None
